@@ -94,6 +94,8 @@ def cases(tier, seed):
     # the memory model of the C back end rests on its hash-map helper text: checked by vf/chelper.py
     out.append({'fam': 'HELPER', 'k': 'chelper', 'limbs': 1, 'backend': 'compiled'})
     out.append({'fam': 'HELPER', 'k': 'chelper', 'limbs': 2, 'backend': 'compiled'})
+    out.append({'fam': 'HELPER', 'k': 'chelper', 'limbs': 1, 'backend': 'compiled', 'aw': 64})
+    out.append({'fam': 'HELPER', 'k': 'chelper', 'limbs': 2, 'backend': 'compiled', 'aw': 40})
     # CompiledSimulation.run([step0, step1, ...]) in one call (input and output buffers of different sizes)
     for c in designs.op_cases([3, 65], ops='+<c', mul_max=0) + designs.seq_cases(widths=(3,))[:3]:
         out.append(dict(c, k='run_many', K=3, sim='compiled', form='pre'))
